@@ -11,6 +11,7 @@ import PotasscoVerif.Drv.StringBuilder
 import PotasscoVerif.Drv.StringConvert
 import PotasscoVerif.Drv.OptIndex
 import PotasscoVerif.Drv.TheoryData
+import PotasscoVerif.Drv.ValueStore
 open PotasscoVerif.Drv
 
 def dispatch (line : String) : String :=
@@ -28,6 +29,8 @@ def dispatch (line : String) : String :=
   | "sc" :: args => runSC args
   | "oi" :: args => runOI args
   | "td" :: args => runTD args
+  | "vs" :: args => runVS args
+  | "rc" :: args => runRC args
   | _ => "bad-component"
 
 partial def loop (h : IO.FS.Stream) (out : IO.FS.Stream) : IO Unit := do
